@@ -109,6 +109,17 @@ func TestAEAD(t *testing.T) {
 		c := aeadcase.Draw(rt)
 		pt := gen.Bytes(rt, "pt", maxPT())
 		ad := gen.BytesOrNil(rt, "ad", 512)
+		if ad != nil && rapid.IntRange(0, 3).Draw(rt, "shared_record") == 0 {
+			// plaintext and associated data as adjacent views of one record buffer
+			wantPT, wantAD := bytes.Clone(pt), bytes.Clone(ad)
+			rec := append(append(make([]byte, 0, len(pt)+len(ad)+32), pt...), ad...)
+			pt, ad = rec[:len(pt)], rec[len(pt):]
+			checkAEAD(rt, c, pt, ad)
+			if !bytes.Equal(pt, wantPT) || !bytes.Equal(ad, wantAD) {
+				rt.Fatalf("%v: Encrypt/Decrypt changed their inputs (plaintext and associated data are adjacent views of one buffer): pt %s -> %s, ad %s -> %s", c, gen.Hex(wantPT), gen.Hex(pt), gen.Hex(wantAD), gen.Hex(ad))
+			}
+			evid.Add("shared_record_cases", 1)
+		}
 		checkAEAD(rt, c, pt, ad)
 		class := fmt.Sprintf("%s/pt=%s/%s", c.Class(), gen.LenClass(len(pt)), adClass(ad))
 		evid.Case(class, len(pt) >= 1, evid.NewH().S(c.String()).B(pt).B(ad).Sum(), func() any {
